@@ -125,3 +125,6 @@ pub use self::types::{
     CompoundType, ExpectedType, ExpectedTypeList, GetType, LhsValue, RhsValue, RhsValues, Type,
     TypeMismatchError,
 };
+
+#[cfg(kani)]
+pub(crate) mod verif_kani;
